@@ -557,6 +557,7 @@ theorem agreeP_all (hE : CastIdem E) : ∀ t, AgreeP E t :=
       cases t <;> simp [TraitType.subs] at hs
       case tuple items => exact agreeP_tuple E hE items
       case baseTuple items => exact agreeP_none E _ (by simp [descOf])
+      case validatedTuple items fv => exact agreeP_none E _ (by simp [descOf])
       case either alts wn => subst hs; exact agreeP_either E alts wn hQ
       case union alts => exact agreeP_none E _ (by simp [descOf])
       case compoundH hs' => subst hs; exact agreeP_compoundH E hs' hQ)
